@@ -18,6 +18,9 @@ import (
 	"github.com/Eyevinn/mp4ff/mp4"
 )
 
+// maxInitialBufSize limits the buffer that is allocated up front from the Content-Length header.
+const maxInitialBufSize = 16 << 20
+
 // Receiver is a receiver of CMAF segments.
 // There may be parallel full streams with their own set of tracks (streams).
 type Receiver struct {
@@ -282,9 +285,9 @@ func (r *Receiver) SegmentHandlerFunc(w http.ResponseWriter, req *http.Request) 
 
 	log.Debug("Receiving file", "url", path, "contentLength", contentLength, "totSize", rsd.totSize)
 	var buf []byte
-	if contentLength > 0 {
+	if contentLength > 0 && contentLength <= maxInitialBufSize {
 		buf = make([]byte, contentLength)
-	} else {
+	} else { // the parser grows the buffer as data arrives; never trust a declared length for the allocation
 		buf = make([]byte, 1024)
 	}
 	if ch.receiveNrRaws == 0 {
